@@ -86,7 +86,11 @@ func genKey(r *gen.R) string {
 	tf := r.PickS("1Min", "1H", "1D", "5Min", "..", "")
 	ag := r.PickS("OHLC", "TICK", "..", "../..", "OHLC/extra")
 	var key string
-	switch r.Intn(6) {
+	sel := r.Intn(8)
+	if sel >= 6 {
+		sel = 3
+	}
+	switch sel {
 	case 0: // hostile symbol, valid rest
 		key = parts[0] + "/" + tf + "/" + ag
 	case 1: // hostile everywhere
@@ -98,7 +102,20 @@ func genKey(r *gen.R) string {
 		}
 		key = strings.Join(parts, "/") + "/" + tf + "/" + ag + ":" + strings.Join(cats, "/") + "/Timeframe/AttributeGroup"
 	case 3:
-		key = "../" + r.PickS("sibling", "decoydir", "root2") + "/" + tf + "/" + ag
+		// siblings of the data root, including names that merely start with the root's own name
+		// (a string-prefix containment test accepts those), with category orders that put the timeframe
+		// item where the key has it
+		sib := r.PickS("sibling", "decoydir", "root2", "root-old", "root.bak", "rootX")
+		switch r.Intn(4) {
+		case 0:
+			key = "../" + sib + "/" + tf + "/" + ag
+		case 1:
+			key = "../" + sib + "/" + tf + ":Symbol/AttributeGroup/Timeframe"
+		case 2:
+			key = "../" + sib + "/" + tf + "/" + ag + ":Up/Symbol/Timeframe/AttributeGroup"
+		default:
+			key = "../" + sib + "/x/" + tf + ":Up/Symbol/AttributeGroup/Timeframe"
+		}
 	case 4:
 		key = r.PickS("..", "../..", "./..", "a/../..") + "/" + tf + "/" + ag + ":Symbol/Timeframe/AttributeGroup"
 	default:
@@ -126,6 +143,8 @@ func c16run(c *runner.Ctx) runner.Result {
 	os.WriteFile(filepath.Join(outer, "sibling", "category_name"), []byte("Timeframe"), 0o600)
 	os.WriteFile(filepath.Join(outer, "decoy.txt"), []byte("decoy"), 0o600)
 	os.MkdirAll(filepath.Join(outer, "decoydir", "sub"), 0o770)
+	os.MkdirAll(filepath.Join(outer, "root2"), 0o770)
+	os.WriteFile(filepath.Join(outer, "root2", "keep"), []byte("x"), 0o600)
 	os.WriteFile(filepath.Join(outer, "decoydir", "sub", "file"), []byte("x"), 0o600)
 	before, beforeList := hashTree(outer, root)
 	nk := 40
